@@ -283,6 +283,9 @@ structure Cfg where
   fixed : Bool
   /-- Curve25519 base-point multiplication (supplied; not part of this model) -/
   pubOf : Bytes → Bytes
+  /-- the comment block `newBridgeFile` puts above the bridge line (supplied: the check reads it
+      from a file the code wrote) -/
+  bridgePrefix : Bytes
 
 structure Args where
   nodeID : Option Bytes
@@ -323,6 +326,9 @@ def bridgeLine (cfg : Cfg) (i : Ident) : Bytes :=
   ascii "Bridge obfs4 <IP ADDRESS>:<PORT> <FINGERPRINT> cert=" ++ certOf cfg i
     ++ ascii " iat-mode=" ++ decimal i.iat ++ [10]
 
+/-- the whole bridge-line file -/
+def bridgeText (cfg : Cfg) (i : Ident) : Bytes := cfg.bridgePrefix ++ bridgeLine cfg i
+
 /-- "The IAT mode should be independently configurable": the `iat-mode` argument, when given,
     overrides the loaded / default value (`none` = malformed) -/
 def iatChoice (js : JS) (iatArg : Option Bytes) : Option Int :=
@@ -340,7 +346,7 @@ def finish (cfg : Cfg) (pre : List Op) (js : JS) (iatArg : Option Bytes) : Resul
     match identOfJS js' with
     | none => ⟨pre, .err⟩
     | some i =>
-      ⟨pre ++ writeFile cfg.fixed Consts.Obfs4.bridgeFile (bridgeLine cfg i)
+      ⟨pre ++ writeFile cfg.fixed Consts.Obfs4.bridgeFile (bridgeText cfg i)
            ++ writeFile cfg.fixed Consts.Obfs4.stateFile (encState (recOfJS js')), .ok i⟩
 
 /-- one start of the bridge in directory `d`; `fresh` is what `newJSONServerState` would
@@ -356,6 +362,50 @@ def start (cfg : Cfg) (d : Dir) (a : Args) (fresh : JS) : Result :=
       | none => ⟨[], .err⟩
       | some js => finish cfg [] js a.iat
   | some p, some n, some s => finish cfg [] ⟨n, p, [], s, 0⟩ a.iat
+  | _, _, _ => ⟨[], .err⟩
+
+/-! ## Write faults (the code as it is: `atomicfile.WriteFile`)
+
+`write(2)` may fail or come up short (disk full, quota, file-size limit).  The check injects this
+with `RLIMIT_FSIZE = k`: a file cannot grow beyond `k` bytes, a write that would cross the limit
+is cut to it and the next one fails with `EFBIG`. -/
+
+/-- `atomicfile.WriteFile` under a size limit of `k` bytes: the calls it performs and whether it
+    succeeds.  On a write error the temp file is closed and removed; nothing is renamed. -/
+def writeFileLim (k : Nat) (n : Name) (c : Bytes) : List Op × Bool :=
+  if c.length ≤ k then (writeFile true n c, true)
+  else
+    (.openTrunc (tmpName n) ::
+      ((if k = 0 then [] else [.write (tmpName n) (c.take k)]) ++ [.close (tmpName n), .unlink (tmpName n)]),
+     false)
+
+def finishLim (cfg : Cfg) (k : Nat) (pre : List Op) (js : JS) (iatArg : Option Bytes) : Result :=
+  match iatChoice js iatArg with
+  | none => ⟨pre, .err⟩
+  | some iat =>
+    let js' : JS := { js with iat := iat }
+    match identOfJS js' with
+    | none => ⟨pre, .err⟩
+    | some i =>
+      let b := writeFileLim k Consts.Obfs4.bridgeFile (bridgeText cfg i)
+      if b.2 then
+        let st := writeFileLim k Consts.Obfs4.stateFile (encState (recOfJS js'))
+        ⟨pre ++ b.1 ++ st.1, if st.2 then .ok i else .err⟩
+      else ⟨pre ++ b.1, .err⟩
+
+/-- one start (repaired code) with every file write subject to the size limit `k` -/
+def startLim (cfg : Cfg) (k : Nat) (d : Dir) (a : Args) (fresh : JS) : Result :=
+  match a.priv, a.nodeID, a.seed with
+  | none, none, none =>
+    match get d Consts.Obfs4.stateFile with
+    | none =>
+      let w := writeFileLim k Consts.Obfs4.stateFile (encState (recOfJS fresh))
+      if w.2 then finishLim cfg k w.1 fresh a.iat else ⟨w.1, .err⟩
+    | some c =>
+      match loadJS c with
+      | none => ⟨[], .err⟩
+      | some js => finishLim cfg k [] js a.iat
+  | some p, some n, some s => finishLim cfg k [] ⟨n, p, [], s, 0⟩ a.iat
   | _, _, _ => ⟨[], .err⟩
 
 /-! ## ScrambleSuit session tickets -/
